@@ -288,6 +288,10 @@ class TlaSet(list):
     """marks a Python list to be written as a TLA+ set literal"""
 
 
+class TlaMap(dict):
+    """a Python dict written as a TLA+ function (k :> v @@ ...), for keys that are not identifiers"""
+
+
 class TlaRaw(object):
     """a TLA+ expression written verbatim"""
     def __init__(self, text):
@@ -306,6 +310,10 @@ def tla_literal(o):
         return "{" + ",".join(tla_literal(x) for x in o) + "}"
     if isinstance(o, TlaRaw):
         return o.text
+    if isinstance(o, TlaMap):
+        if not o:
+            return "<<>>"
+        return "(" + " @@ ".join("(%s :> %s)" % (tla_literal(k), tla_literal(v)) for k, v in o.items()) + ")"
     if isinstance(o, (list, tuple)):
         return "<<" + ",".join(tla_literal(x) for x in o) + ">>"
     if isinstance(o, dict):
@@ -319,7 +327,7 @@ def write_data_module(wd, name, defs):
     """Write <wd>/<name>.tla with one definition per entry of defs (exported, literal data).
     TLC evaluates literal zero-arity definitions once; JsonDeserialize under a constant
     override was measured to be re-read on every evaluation (13 min instead of seconds)."""
-    lines = ["---- MODULE %s ----" % name, "EXTENDS Integers", "\\* generated at check time from the tree under test; not a snapshot"]
+    lines = ["---- MODULE %s ----" % name, "EXTENDS Integers, TLC", "\\* generated at check time from the tree under test; not a snapshot"]
     for k, v in defs.items():
         lines.append("%s == %s" % (k, tla_literal(v)))
     lines.append("====")
